@@ -65,7 +65,7 @@ def tree_files():
 
 def sim_files():
     out = []
-    for top in ("sim", "tools"):
+    for top in ("sim", "tools", "sim_access"):
         for d, _, fs in os.walk(os.path.join(VERIF, top)):
             for f in fs:
                 out.append(os.path.join(d, f))
@@ -146,7 +146,7 @@ def build(race=False):
                 s = s.replace("package " + name, "package " + name + "q")
                 s = s.replace("simrt.CLock", "simrt.CQLock").replace("simrt.CUnlock", "simrt.CQUnlock").replace("simrt.CAtomic", "simrt.CQAtomic")
                 open(p, "w").write(s)
-        for name in ("simrt", "simsync", "simatomic", "simsyncq", "simatomicq", "simos", "simfp", "simnet"):
+        for name in ("simrt", "simsync", "simatomic", "simsyncq", "simatomicq", "simos", "simfp", "simnet", "simrand"):
             d = os.path.join(z, name)
             if os.path.isdir(d):
                 for f in os.listdir(d):
